@@ -41,10 +41,30 @@ def fe(draw, g, nonzero=False):
     return v
 
 
+def cube_root_of_unity():
+    """A primitive cube root of unity in Fq (beta^3 = 1, beta != 1), derived, not copied from the library."""
+    q = F.Q
+    for t in range(2, 50):
+        b = pow(t, (q - 1) // 3, q)
+        if b != 1:
+            return b
+    raise AssertionError
+
+
+BETA = cube_root_of_unity()
+
+
 @st.composite
 def zval(draw, g):
-    how = draw(st.sampled_from(("one", "one", "minus_one", "two", "random", "random") + (("one_plus_u", "pure_u") if g == 2 else ())))
+    how = draw(st.sampled_from(("one", "one", "minus_one", "two", "random", "random", "root_of_unity") + (("one_plus_u", "pure_u") if g == 2 else ())))
     K = KK(g)
+    if how == "root_of_unity":
+        # z a sixth root of unity other than 1: z^2 or z^3 is 1 (or -1), so representatives (x*z^2, y*z^3, z) share words with the
+        # affine coordinates although z != 1
+        w = pow(BETA, draw(st.integers(1, 2)), F.Q)
+        if draw(st.booleans()):
+            w = F.Q - w
+        return how, (w if g == 1 else (w, 0))
     if how == "one_plus_u":      # shares the real part of 1: comparisons that look at one coefficient only would take z for 1
         return how, (1, draw(fe(1, nonzero=True)))
     if how == "pure_u":
@@ -90,7 +110,7 @@ def cases(draw):
     op = draw(st.sampled_from(OPS + ("add", "add_mixed", "equal")))
     K = KK(g)
     kp, P = draw(point(g))
-    rel = draw(st.sampled_from(("indep", "same", "same_other_z", "neg", "p_id", "q_id", "both_id", "same_x")))
+    rel = draw(st.sampled_from(("indep", "same", "same_other_z", "neg", "p_id", "q_id", "both_id", "same_x", "same_y")))
     zt, zP = draw(zval(g))
     zq_t, zQ = draw(zval(g))
     if rel == "indep":
@@ -101,6 +121,13 @@ def cases(draw):
             zQ = zP
     elif rel in ("neg", "same_x"):
         Qp = C.neg(P, K)
+    elif rel == "same_y":
+        # the other points with the same y: (beta*x, y), (beta^2*x, y) - different points that agree in one coordinate
+        if P is None:
+            Qp = None
+        else:
+            b = pow(BETA, draw(st.integers(1, 2)), F.Q)
+            Qp = ((P[0] * b % F.Q) if g == 1 else (P[0][0] * b % F.Q, P[0][1] * b % F.Q), P[1])
     elif rel == "p_id":
         P = None
         kq, Qp = draw(point(g))
